@@ -495,6 +495,7 @@ func (r *runner) run(dir string) {
 	}
 	r.rrng = rand.New(rand.NewSource(p.Seed*977 + int64(len(p.Steps))))
 	genesisRestart := []int{}
+	setupFailed := []map[string]interface{}{}
 	for i := 0; i < r.nrep; i++ {
 		o := opt
 		o.Dir = fmt.Sprintf("%s/r%d", dir, i+1)
@@ -511,7 +512,10 @@ func (r *runner) run(dir string) {
 			genesisRestart = append(genesisRestart, i+1)
 		}
 		if err := setup(rep); err != nil {
-			panic(err)
+			// the primary completed the very same setup: the replica computed something else
+			setupFailed = append(setupFailed, map[string]interface{}{"ev": "ReplicaDiverged", "r": i + 1, "h": int(rep.Height()), "msg": err.Error(),
+				"genesisRestart": i == 2})
+			continue
 		}
 		r.reps = append(r.reps, rep)
 	}
@@ -535,6 +539,9 @@ func (r *runner) run(dir string) {
 		init[k] = v
 	}
 	r.emit(init)
+	for _, e := range setupFailed {
+		r.emit(e)
+	}
 	for _, st := range p.Steps {
 		switch st.Step {
 		case "block":
